@@ -169,6 +169,11 @@ func (fv *FuncVerifier) call(st *State, instr ssa.Instruction, cc *ssa.CallCommo
 			}
 			return r, true
 		}
+		if clo == nil {
+			if r, ok := fv.tryInline(st, instr, callee, args, pos); ok {
+				return r, true
+			}
+		}
 		fv.enc.havocAllCalls[name] = true
 		fv.unknownCallee(st, name, pos)
 		st.havocAll()
